@@ -358,7 +358,7 @@ def unit_elem_binary(dunder, field):
     def run(ctx):
         I = ctx.I
         f = I.get_func(SPACE + 'LinearSpaceElement.' + dunder)
-        others = ['self', 'elem', 'scalar', 'alien', 'badscalar', 'str']
+        others = ['self', 'elem', 'scalar', 'alien', 'badscalar', 'str', 'arraylike']
         for ok in others:
             def path(st, ok=ok):
                 asp = lib.AbstractSpace(I, 'X', field)
@@ -380,6 +380,11 @@ def unit_elem_binary(dunder, field):
                         st.assume(core.s_not(core.sc_eq(s, 0)))
                 elif ok == 'badscalar':
                     o = s = om.sym_scalar('s', 'complex')      # complex scalar: not in a real field
+                elif ok == 'arraylike':
+                    # the caller's ndarray of matching shape / dtype: space.element wraps it without copy, so a write to the wrapper is a write to the array
+                    els['arr'] = asp.element('arr')
+                    old['arr'] = content(els['arr'])
+                    o = lib.ArrayLike(els['arr'])
                 else:
                     o = 'text'
                 fr = ip.Frame(st)
@@ -389,7 +394,7 @@ def unit_elem_binary(dunder, field):
                     return ('raise', (e.exc, els, old))
                 return ('ok', (els, old, o, s, ret, asp))
             info = {'dunder': dunder, 'other': ok, 'field': field}
-            valid = ok in ('self', 'elem', 'scalar') or (ok == 'badscalar' and field == 'complex')
+            valid = ok in ('self', 'elem', 'scalar', 'arraylike') or (ok == 'badscalar' and field == 'complex')
             for st, (status, r) in ctx.explore(path):
                 low = st.lower
                 if status == 'raise':
@@ -418,7 +423,7 @@ def unit_elem_binary(dunder, field):
                 if ok in ('scalar', 'badscalar'):
                     spec = sspec(old['x'], s)
                 else:
-                    spec = espec(old['x'], old['x'] if ok == 'self' else old['y'])
+                    spec = espec(old['x'], old['x'] if ok == 'self' else (old['arr'] if ok == 'arraylike' else old['y']))
                 ctx.prove(st, 'post:value', lib.eq_goal(low, content(ret), spec), info)
                 for k in sorted(els):
                     if els[k] is not ret:
